@@ -149,6 +149,35 @@ fn trivial_rejection(e: &str) -> bool {
     l.contains("parsing") || l.contains("parse") || l.contains("unknown variant") || l.contains("no funds") || l.contains("payment") || l.contains("sent funds")
 }
 
+/// "Factory parameters and minter status change only through governance (sudo), never
+/// through a user message": after any message sent by any account, the minter's Status and
+/// the factory's Params must be what governance last set.  `excepted` = the one documented
+/// exception (C20): the wasm admin's factory migrate WITH an explicit parameter message.
+fn gov_monitor(cx: &mut Ctx, w: &World, row: &RowId, what: &str, excepted: bool) {
+    let (st, pa) = gov_view(w);
+    if let (Some(exp), Some(now)) = (w.gov_status, st) {
+        if exp != now {
+            cx.violation(
+                format!("C05:{}:status-changed-by-user-message", w.ck.contract()),
+                format!(
+                    "{}: governance had set Status bits (verified,blocked,explicit) = {:03b}; after {} the Status query answers {:03b}",
+                    w.ck.name(), exp, what, now
+                ),
+                row,
+            );
+        }
+    }
+    if let (Some(exp), Some(now)) = (&w.gov_params, &pa) {
+        if exp != now && !excepted {
+            cx.violation(
+                format!("C05:{}:params-changed-by-user-message", w.ck.contract()),
+                format!("{}: governance had set Params {}; after {} the Params query answers {}", w.ck.name(), exp, what, now),
+                row,
+            );
+        }
+    }
+}
+
 /// run one row; `full` = every role, otherwise the principals and two outsiders
 fn run_row(cx: &mut Ctx, ck: CK, state: &str, kind: &str, full: bool) -> Result<Option<RowOut>, String> {
     let mut w = build(ck, state)?;
@@ -224,6 +253,7 @@ fn run_row(cx: &mut Ctx, ck: CK, state: &str, kind: &str, full: bool) -> Result<
                 &row,
             );
         }
+        gov_monitor(cx, &w, &row, &format!("{} sent through execute by {} ({})", msg.json, role, sender), false);
         if matches!(ck, CK::Factory(_) | CK::Minter(_)) && post != init {
             // admin, Params and Status are all the queries of these kinds show: no execute may move them
             cx.violation(
@@ -476,6 +506,165 @@ fn run_instantiate_probes(cx: &mut Ctx) -> Result<(), String> {
     Ok(())
 }
 
+/// MsgMigrateContract as a row of the table: every contract with a migrate entry point,
+/// from states where governance has set non-default Status / Params, from stored cw2
+/// versions across the accepted range (and two refused pairs), sent by the wasm admin
+/// and by accounts that are not.
+fn run_migrate(cx: &mut Ctx, thorough: bool) -> Result<(), String> {
+    use crate::w_migrate::{get_cw2, set_cw2};
+    let versions = |cur: &str| -> Vec<(String, Option<String>, bool)> {
+        // (version, other name, expected acceptable)
+        let mut v: Vec<(String, Option<String>, bool)> =
+            ["2.4.0", "2.9.9", "3.0.0", "3.1.0"].iter().map(|x| (x.to_string(), None, true)).collect();
+        v.push((cur.to_string(), None, true));
+        v.push(("99.0.0".to_string(), None, false));
+        v.push((cur.to_string(), Some("crates.io:something-else".to_string()), false));
+        v
+    };
+    let migrate = |w: &mut World, sender: &str, msg: &Value| -> Result<(), String> {
+        let target = w.target.clone();
+        let code = w.app.wrap().query_wasm_contract_info(target.to_string()).map_err(|e| e.to_string())?.code_id;
+        let app = &mut w.app;
+        use cw_multi_test::Executor;
+        match crate::util::catch(|| app.migrate_contract(Addr::unchecked(sender), target.clone(), msg, code)) {
+            Ok(Ok(_)) => Ok(()),
+            Ok(Err(e)) => Err(format!("{:#}", e)),
+            Err(p) => Err(p),
+        }
+    };
+    // one migrate call with everything the property says about it
+    #[allow(clippy::too_many_arguments)]
+    fn one(
+        cx: &mut Ctx,
+        w: &mut World,
+        migrate: &dyn Fn(&mut World, &str, &Value) -> Result<(), String>,
+        state: &str,
+        role: &str,
+        sender: &str,
+        msg: &Value,
+        explicit: bool,
+        version_ok: bool,
+        label: &str,
+    ) {
+        let is_admin = w.wasm_admin.as_deref() == Some(sender);
+        let init = observe(w);
+        let pre = w.snapshot();
+        let r = migrate(w, sender, msg);
+        let ok = r.is_ok();
+        let post = observe(w);
+        cx.rep.evaluations += 1;
+        cx.rep.bump(&format!("{}|migrate{}|{}|{}", w.ck.contract(), if explicit { "-with-params" } else { "" }, if is_admin { "wasm-admin" } else { "outsider" }, if ok { "ok" } else { "err" }));
+        cx.nontrivial.insert(format!("{}|migrate|{}|{}|{}", w.ck.name(), state, label, role));
+        let row = RowId { ck: w.ck, state: state.to_string(), kind: "migrate".into(), role: Some(format!("{} {}", role, label)) };
+        if cx.verbose {
+            println!("  migrate {:<34} [{}] {} by {:<20} -> {}", w.ck.name(), state, label, role, if ok { "ok".to_string() } else { format!("err [{}]", r.as_ref().err().unwrap().replace('\n', " ").chars().rev().take(90).collect::<String>().chars().rev().collect::<String>()) });
+        }
+        if ok && !is_admin {
+            cx.violation(
+                format!("C05:{}:migrate:{}-succeeded", w.ck.contract(), role),
+                format!("{}: a migrate sent by {} ({}), who is not the wasm admin {:?}, went through", w.ck.name(), role, sender, w.wasm_admin),
+                &row,
+            );
+        }
+        if !ok && w.snapshot() != pre {
+            cx.violation(format!("C05:{}:migrate:rejected-call-changed-state", w.ck.contract()), format!("{}: rejected migrate by {} changed state", w.ck.name(), role), &row);
+        }
+        gov_monitor(cx, w, &row, &format!("a migrate ({}, message {}) sent by {} ({})", label, msg, role, sender), explicit && is_admin);
+        let ex = if explicit {
+            let (_, pa) = gov_view(w);
+            format!("(Some {})", w.ids.id(&format!("params:{}", pa.unwrap_or_default())))
+        } else {
+            "None".to_string()
+        };
+        cx.cases.push(format!("CMig {} {} {} {} {} {}", init, coq_bool(is_admin), ex, coq_bool(version_ok), coq_bool(ok), post));
+    }
+
+    // ---------------- minters: all eight Status triples x the version range
+    for mk in MinterKind::ALL {
+        let mut w = build(CK::Minter(mk), "fresh")?;
+        let minter = w.target.clone();
+        let (name, cur) = get_cw2(&w.app, &minter);
+        let admin = w.wasm_admin.clone().unwrap_or_default();
+        for bits in 0..8u64 {
+            let (v, b, e) = (bits & 4 != 0, bits & 2 != 0, bits & 1 != 0);
+            sudo_update_status(&mut w.app, &minter, v, b, e).map_err(|x| format!("governance UpdateStatus: {}", x))?;
+            w.gov_status = Some(bits);
+            for (ver, other, acc) in versions(&cur) {
+                // the base minter has no migrate entry point at all
+                let acc = acc && mk != MinterKind::Base;
+                let label = format!("status={:03b} cw2=({}, {})", bits, other.clone().unwrap_or_else(|| name.clone()), ver);
+                let senders: Vec<(&str, String)> = if thorough || ver == "2.4.0" || ver == cur {
+                    vec![("stranger", "stranger".to_string()), ("buyer", "buyer1".to_string()), ("governance-account", GOV.to_string()), ("wasm-admin-creator", admin.clone())]
+                } else {
+                    vec![("stranger", "stranger".to_string()), ("wasm-admin-creator", admin.clone())]
+                };
+                for (role, sender) in senders {
+                    set_cw2(&mut w.app, &minter, other.as_deref().unwrap_or(&name), &ver);
+                    one(cx, &mut w, &migrate, "governed", role, &sender, &json!({}), false, acc, &label);
+                }
+            }
+        }
+        set_cw2(&mut w.app, &minter, &name, &cur);
+    }
+    // ---------------- factories: migrate without a parameter message must leave Params
+    // alone; with one, only the wasm admin gets through and that is the documented exception
+    for fk in FactoryKind::ALL {
+        let mut w = factory_migrate_world(fk)?;
+        let factory = w.target.clone();
+        let (name, cur) = get_cw2(&w.app, &factory);
+        let explicit = sudo_shaped(CK::Factory(fk))[0].1["update_params"].clone();
+        for (ver, other, acc) in versions(&cur) {
+            let label = format!("cw2=({}, {})", other.clone().unwrap_or_else(|| name.clone()), ver);
+            for (role, sender) in w.roles.clone() {
+                set_cw2(&mut w.app, &factory, other.as_deref().unwrap_or(&name), &ver);
+                one(cx, &mut w, &migrate, "governed", &role, &sender, &Value::Null, false, acc, &label);
+            }
+        }
+        for (role, sender) in w.roles.clone() {
+            if role == "wasm-admin" {
+                continue;
+            }
+            set_cw2(&mut w.app, &factory, &name, "3.0.0");
+            one(cx, &mut w, &migrate, "governed", &role, &sender, &explicit, true, true, "with an explicit parameter message");
+        }
+        set_cw2(&mut w.app, &factory, &name, "3.0.0");
+        one(cx, &mut w, &migrate, "governed", "wasm-admin", "fadmin", &explicit, true, true, "with an explicit parameter message");
+    }
+    // ---------------- the other contracts with a migrate entry point: only the wasm admin,
+    // and nothing the principal queries show may move
+    let others = [
+        CK::Coll(CollKind::Updatable),
+        CK::Coll(CollKind::Metadata),
+        CK::Coll(CollKind::Nt),
+        CK::Wl(WlKind::Merkle),
+        CK::Wl(WlKind::TieredMerkle),
+        CK::Splits(true),
+        CK::Splits(false),
+    ];
+    for ck in others {
+        let states: Vec<&str> = match ck {
+            CK::Coll(_) => vec!["fresh", "creator-handover"],
+            CK::Wl(_) => vec!["fresh", "frozen"],
+            _ => vec!["fresh"],
+        };
+        for st in states {
+            let mut w = build(ck, st)?;
+            let target = w.target.clone();
+            let (name, cur) = get_cw2(&w.app, &target);
+            let admin = w.wasm_admin.clone().unwrap_or_default();
+            for (ver, other, _) in versions(&cur) {
+                let label = format!("cw2=({}, {})", other.clone().unwrap_or_else(|| name.clone()), ver);
+                for (role, sender) in [("stranger", "stranger".to_string()), ("new-creator", "creator2".to_string()), ("wasm-admin", admin.clone())] {
+                    set_cw2(&mut w.app, &target, other.as_deref().unwrap_or(&name), &ver);
+                    // which stored pairs each of these contracts accepts is C20's subject: not asserted here
+                    one(cx, &mut w, &migrate, st, role, &sender, &json!({}), false, false, &label);
+                }
+            }
+        }
+    }
+    Ok(())
+}
+
 /// random interleavings of the messages whose outcome Auth.v decides completely
 fn run_history(cx: &mut Ctx, rng: &mut Rng, ck: CK, steps: usize) -> Result<(), String> {
     let mut w = build(ck, "fresh")?;
@@ -593,6 +782,9 @@ mod airdrop {
             principals: BTreeMap::from([(P::ClaimWallet, vec!["buyer1".to_string()])]),
             aux: BTreeMap::new(),
             ids: fresh_ids(),
+            gov_status: None,
+            gov_params: None,
+            wasm_admin: None,
         };
         Ok(Drop { w, eth_addr, wallet })
     }
@@ -804,6 +996,7 @@ pub fn run(a: &Args) {
         let r = match (row.ck, row.kind.as_str()) {
             (CK::Airdrop, _) => run_airdrop(&mut cx).map(|_| None),
             (_, "instantiate") => run_instantiate_probes(&mut cx).map(|_| None),
+            (_, "migrate") => run_migrate(&mut cx, true).map(|_| None),
             (ck, k) if k.starts_with("sudo_") => run_sudo_shaped(&mut cx, ck).map(|_| None),
             (ck, _) if row.state == "history" => run_history(&mut cx, &mut rng, ck, 60).map(|_| None),
             (ck, k) => run_row(&mut cx, ck, &row.state, k, true),
@@ -869,6 +1062,10 @@ pub fn run(a: &Args) {
     // ---- (ii) instantiation
     if let Err(e) = run_instantiate_probes(&mut cx) {
         cx.rep.notes.push(format!("instantiate probes: {}", e));
+    }
+    // ---- migrate, the other user message
+    if let Err(e) = run_migrate(&mut cx, thorough) {
+        cx.rep.notes.push(format!("migrate rows: {}", e));
     }
     // ---- sg-eth-airdrop
     if let Err(e) = run_airdrop(&mut cx) {
